@@ -181,6 +181,13 @@ def empty_guards(ctx: Ctx, cfg: CFG, loop: ast.For) -> List[N]:
         t = norm(st.test)
         if t in (lt, f"len({lt}) > 0", f"len({lt}) != 0", f"len({lt}) >= 1", f"{lt} is not None and {lt}"):
             out.append(n)
+        # a walk of X's descendants is empty exactly when X has no children
+        it = loop.iter
+        if isinstance(it, ast.Call) and isinstance(it.func, ast.Attribute) and it.func.attr in ("_iter_post", "_iter_pre", "_iter_level", "iterator", "__iter__") \
+                and not any(k.arg == "add_self" and not (isinstance(k.value, ast.Constant) and not k.value.value) for k in it.keywords):
+            recv = norm(it.func.value)
+            if t in (f"{recv}._children", f"{recv}.children", f"{recv}.has_children()", f"not {recv}.is_leaf()"):
+                out.append(n)
     return out
 
 
@@ -338,8 +345,13 @@ def must(ctx: Ctx) -> List[Ob]:
     def _unreg_loop(n: N) -> bool:
         return n.kind == "iter" and _loop_calls(ctx, f, n.ast, {"Tree._unregister"})
 
-    _must(ctx, obs, f, "unregisters every descendant", _unreg_loop, ["C01", "C02"], "descendants of removed nodes must leave the maps")
     cfg = ctx.cfg(f)
+    _eg = [g_ for n_ in cfg.stmt_nodes() if _unreg_loop(n_) for g_ in empty_guards(ctx, cfg, n_.ast)]
+
+    def _unreg_loop_or_leaf(n: N) -> bool:
+        return _unreg_loop(n) or any(n is g_ for g_ in _eg)
+
+    _must(ctx, obs, f, "unregisters every descendant", _unreg_loop_or_leaf, ["C01", "C02"], "descendants of removed nodes must leave the maps")
     for n in cfg.stmt_nodes():
         if _unreg_loop(n):
             ok, why = _iter_is_post_order(ctx, f, n.ast.iter)
@@ -347,7 +359,7 @@ def must(ctx: Ctx) -> List[Ob]:
                               "" if ok else why + " (_unregister nulls node._children while the walk still needs it)"))
     clear = P_effect(si, ["rebind"], ["_children"])
     _must(ctx, obs, f, "clears self._children", clear, ["C01", "C04"], "the removed children must not stay reachable")
-    _dominates(ctx, obs, f, "descendants are unregistered before the list is dropped", clear, _unreg_loop, ["C01"],
+    _dominates(ctx, obs, f, "descendants are unregistered before the list is dropped", clear, _unreg_loop_or_leaf, ["C01"],
                "after self._children = None the walk finds nothing to unregister")
 
     # --- Node.move_to
@@ -684,7 +696,7 @@ def _slot_key_text(node: ast.AST, ctx: Optional[Ctx] = None, f: Optional[Func] =
     return None
 
 
-@rule("PAIR-3", ["C02", "C04"], floor=3, section="3.1")
+@rule("PAIR-3", ["C02", "C04"], floor=2, section="3.1")
 def pair3(ctx: Ctx) -> List[Ob]:
     """re-key pairing: every assignment of a new _data_id to a registered node is preceded on every path by its removal from the old clone list / slot and by its insertion under exactly the new key"""
     obs: List[Ob] = []
@@ -834,7 +846,7 @@ def _may_raise_unique(ctx: Ctx) -> Set[Func]:
     return out
 
 
-@rule("GUARD-UNIQ", ["C03"], floor=3, section="3.1")
+@rule("GUARD-UNIQ", ["C03"], floor=2, section="3.1")
 def guard_uniq(ctx: Ctx) -> List[Ob]:
     """sibling uniqueness on every route: each statement that changes a registered node's (parent, data_id) pair is dominated by a uniqueness refusal (a scan that can raise UniqueConstraintError)"""
     obs: List[Ob] = []
